@@ -362,17 +362,18 @@ with rquery (kin : kctx) (walias subquery : bool) (ali : option string) (x : que
                              match l with [] => Ok [] | y :: r =>
                                a <- (match (if k_gba k then alias_ref y else None) with
                                      | Some a => Ok (fq (or_ostr (aq base) (q base)) a)
-                                     | None => ritem kk srcs (ci false false) y end) ;;
+                                     (* _group_sql consumes groupby_alias as a named parameter: a sub-query below it sees the default *)
+                                     | None => ritem (mk_k (kc kk) (k_abs kk) true) srcs (ci false clause_subq_groupby) y end) ;;
                                rest <- go r ;; Ok (a :: rest) end) groupbys ;;
                     Ok (" GROUP BY " ++ join "," gs) end) ;;
-      hv <- opt_bind havings (fun i => a <- ritem kk srcs (ci false false) i ;; Ok (" HAVING " ++ a)) ;;
+      hv <- opt_bind havings (fun i => a <- ritem kk srcs (ci false clause_subq_having) i ;; Ok (" HAVING " ++ a)) ;;
       ob <- (match orderbys with
              | [] => Ok ""
              | _ => os <- (fix go (l : list (item * option order)) : res (list string) :=
                              match l with [] => Ok [] | (y, d) :: r =>
                                a <- (match alias_ref y with
                                      | Some a => Ok (fq (or_ostr (aq base) (q base)) a)
-                                     | None => ritem kk srcs (ci false false) y end) ;;
+                                     | None => ritem kk srcs (ci false clause_subq_orderby) y end) ;;
                                rest <- go r ;;
                                Ok ((match d with Some d' => a ++ " " ++ order_text d' | None => a end) :: rest) end) orderbys ;;
                     Ok (" ORDER BY " ++ join "," os) end) ;;
@@ -445,7 +446,9 @@ with rquery (kin : kctx) (walias subquery : bool) (ali : option string) (x : que
                  Ok ((jprefix h cnd ++ "JOIN " ++ a ++ cn) :: rest) end) joins jnames ;;
       ss <- (fix go (l : list (term * item)) : res (list string) :=
                match l with [] => Ok [] | (f, v) :: r =>
-                 a <- render (set_wn base false) f ;; b <- ritem kk srcs base v ;; rest <- go r ;; Ok ((a ++ "=" ++ b) :: rest) end) sets ;;
+                 a <- render (set_wn base false) f ;;
+                 b <- ritem kk srcs (if clause_subq_setvalue then set_subq base true else base) v ;;
+                 rest <- go r ;; Ok ((a ++ "=" ++ b) :: rest) end) sets ;;
       fr <- (fix go (l : list source) (ns : list (option string)) : res (list string) :=
                match l with [] => Ok [] | s :: r =>
                  a <- (match s with
